@@ -129,18 +129,28 @@ func (h *Handler) handleOptions(w http.ResponseWriter, r *http.Request) error {
 	return nil
 }
 
-func (h *Handler) handlePropfind(w http.ResponseWriter, r *http.Request) error {
+// DecodePropFindRequest decodes the body of a PROPFIND request. An empty body
+// is an allprop request.
+func DecodePropFindRequest(r *http.Request) (*PropFind, error) {
 	var propfind PropFind
 	if isContentXML(r.Header) {
 		if err := DecodeXMLRequest(r, &propfind); err != nil {
-			return err
+			return nil, err
 		}
 	} else {
 		var b [1]byte
 		if _, err := r.Body.Read(b[:]); err != io.EOF {
-			return HTTPErrorf(http.StatusBadRequest, "webdav: unsupported request body")
+			return nil, HTTPErrorf(http.StatusBadRequest, "webdav: unsupported request body")
 		}
 		propfind.AllProp = &struct{}{}
+	}
+	return &propfind, nil
+}
+
+func (h *Handler) handlePropfind(w http.ResponseWriter, r *http.Request) error {
+	propfind, err := DecodePropFindRequest(r)
+	if err != nil {
+		return err
 	}
 
 	depth := DepthInfinity
@@ -152,7 +162,7 @@ func (h *Handler) handlePropfind(w http.ResponseWriter, r *http.Request) error {
 		}
 	}
 
-	ms, err := h.Backend.PropFind(r, &propfind, depth)
+	ms, err := h.Backend.PropFind(r, propfind, depth)
 	if err != nil {
 		return err
 	}
